@@ -169,7 +169,7 @@ M("c06_notmerged_carry_over_lost", "C06", "ak/ghist.py",
 M("c07_trivial_bump_test", "C07", "ak/ghist.py",
   "        return self.to_rbuild.iid in self.from_rbuilds", "        return bool(self.from_rbuilds)")
 M("c07_bump_dfs_does_not_stop", "C07", "ak/ghist.py",
-  "            if cur_rbuild.iid in self.from_rbuilds:\n                # do not go deeper\n                dfs_sp[-1] = cur_sp - 1\n                continue",
+  "            if cur_rbuild.iid in included_before:\n                # do not go deeper\n                dfs_sp[-1] = cur_sp - 1\n                continue",
   "            if False:\n                continue")
 # (registering parent builds in the other order only permutes included_at: not a violation)
 M("c07_cycle_check_only_direct", "C07", "ak/ghist.py",
@@ -295,6 +295,9 @@ M("c12_break_by_compares_first_field_only", "C12", "ak/ppobj.py",
 M("c01_revert_span_empty_lines", "C01", "ak/llparser.py",
   "            while col < len(text_line) or span_line_pending:",
   "            while col < len(text_line):")
+M("c07_revert_bump_walk_stops_at_contained_builds", "C07", "ak/ghist.py",
+  "            if cur_rbuild.iid in included_before:",
+  "            if cur_rbuild.iid in self.from_rbuilds:")
 M("c06_registered_type_ignores_remote_name", "C06", "ak/ghist.py",
   "        return repo_class(repo_id, repo_address, remote_name)",
   "        return repo_class(repo_id, repo_address, 'origin')")
